@@ -1229,11 +1229,17 @@ pub fn selftest(args: &[String]) -> i32 {
         .ok()
         .and_then(|s| s.parse().ok())
         .unwrap_or(256);
-    let seed = seed();
+    let base_seed = seed();
+    let nseeds: u64 = std::env::var("VERIF_DET_SEEDS")
+        .ok()
+        .and_then(|s| s.parse().ok())
+        .unwrap_or(3);
     let mut total_pairs = 0u64;
     let mut report = Vec::new();
     for id in &ids {
-        for tier in [Tier::Quick, Tier::Thorough] {
+        for (tier, seed) in (0..nseeds)
+            .flat_map(|k| [(Tier::Quick, base_seed + k), (Tier::Thorough, base_seed + k)])
+        {
             let dir = scratch_dir();
             let mut runs: Vec<BTreeMap<u64, Vec<u64>>> = Vec::new();
             for (tag, w) in [("a1", 1usize), ("b16", 16usize), ("c3", 3usize)] {
@@ -1280,16 +1286,17 @@ pub fn selftest(args: &[String]) -> i32 {
                     total_pairs += 1;
                 }
             }
-            report.push(json!({"property": id, "tier": tier.name(), "units": units.len(), "process_configurations": ["1 worker", "16 workers", "3 workers"]}));
+            report.push(json!({"property": id, "tier": tier.name(), "seed": seed, "units": units.len(), "process_configurations": ["1 worker", "16 workers", "3 workers"]}));
             println!(
-                "[determinism] {} {}: {} units identical across 3 process configurations",
+                "[determinism] {} {} seed {}: {} units identical across 3 process configurations",
                 id,
                 tier.name(),
+                seed,
                 units.len()
             );
         }
     }
-    let out = json!({"seed": seed, "pairs_compared": total_pairs, "detail": report});
+    let out = json!({"seeds": (0..nseeds).map(|k| base_seed + k).collect::<Vec<u64>>(), "pairs_compared": total_pairs, "detail": report});
     let _ = std::fs::create_dir_all(verif_dir().join("evidence"));
     let _ = std::fs::write(
         verif_dir().join("evidence").join("determinism.json"),
